@@ -201,6 +201,57 @@ def _expand_ref_decision(ex):
     return True, ""
 
 
+def check_col_to_name(repo, rep):
+    """xl_col_to_name: bijective base-26 digits, least significant first, as many as the column needs.
+
+    Decided structurally: the digit loop runs until the (1-based) column is exhausted, each digit is
+    ((c - 1) mod 26) rendered from 'A', and the column is reduced by (c - 1) // 26."""
+    from ..symexec import lin_opaque
+    f = repo.func("xrefs.py", "xl_col_to_name")
+    col = f.args.args[0].arg
+    loops = [n for n in body_walk(f) if isinstance(n, (ast.While, ast.For))]
+    recursive = any(isinstance(c, ast.Call) and call_name(c) == f.name for c in body_walk(f))
+    if not loops and not recursive:
+        n_chr = sum(1 for c in body_walk(f) if isinstance(c, ast.Call) and call_name(c) == "chr")
+        rep.ob("C09.R3", f, "xl_col_to_name: produces as many letters as the column needs", False,
+               f"no loop: at most {n_chr} letters can be produced, but columns from index 702 (AAA) up to the table limit need three", key="C09.R3@xl_col_to_name:digits")
+        return
+    if len(loops) != 1 or not isinstance(loops[0], ast.While):
+        raise AnalysisError("xl_col_to_name: digit loop not recognised")
+    lp = loops[0]
+    t = U(lp.test).replace(" ", "")
+    one_based = any(isinstance(n, ast.AugAssign) and U(n.target) == col and isinstance(n.op, ast.Add) and try_const(n.value) == 1 and n.lineno < lp.lineno for n in body_walk(f))
+    test_ok = t in (col, f"{col}>0", f"{col}!=0", f"{col}>=1") and one_based
+    # the reduction of the column inside the loop
+    red = [n for n in lp.body if isinstance(n, (ast.Assign, ast.AugAssign)) and any(isinstance(x, ast.Name) and x.id == col and isinstance(x.ctx, ast.Store) for x in ast.walk(n))]
+    red_ok = False
+    red_txt = [U(n) for n in red]
+    if len(red) == 1 and isinstance(red[0], ast.Assign) and U(red[0].targets[0]) == col:
+        v = red[0].value
+        if isinstance(v, ast.Call) and call_name(v) == "int" and len(v.args) == 1:
+            v = v.args[0]
+        if isinstance(v, ast.BinOp) and isinstance(v.op, (ast.FloorDiv, ast.Div)) and try_const(v.right) == 26:
+            num = lin_opaque(v.left)
+            red_ok = num.c == -1 and num.t == {col: 1}
+    # the digit: remainder 1..26 rendered as chr(ord('A') + r - 1)
+    src = U(lp).replace(" ", "")
+    digit_ok = (f"{col}%26" in src and "=26" in src and "chr(ord('A')+" in src.replace('"', "'") and "-1)" in src) or f"chr(ord('A')+({col}-1)%26)" in src.replace('"', "'")
+    prepend_ok = any(isinstance(n, ast.Assign) and isinstance(n.value, ast.BinOp) and isinstance(n.value.op, ast.Add) and U(n.value.right) == U(n.targets[0]) for n in lp.body)
+    ok = test_ok and red_ok and digit_ok and prepend_ok
+    why = []
+    if not test_ok:
+        why.append(f"the loop runs while `{U(lp.test)}` (expected: until the 1-based column is 0)")
+    if not red_ok:
+        why.append(f"the column is reduced by {red_txt} (expected (col - 1) // 26: a remainder of 0 stands for Z and borrows one from the next digit)")
+    if not digit_ok:
+        why.append("the digit is not the remainder 1..26 rendered from 'A'")
+    if not prepend_ok:
+        why.append("digits are not prepended")
+    rep.ob("C09.R3", lp, "xl_col_to_name: bijective base-26 (digit = remainder 1..26, column reduced by (col - 1) // 26 until exhausted)", ok,
+           "; ".join(why) + (": names of columns whose number is a multiple of 26 (AZ, BZ, ...) or that need three letters come out wrong" if why else ""),
+           key="C09.R3@xl_col_to_name:digits")
+
+
 def run(repo, rep, tier):
     ntr = repo.func("model.py", "_NumbersModel.node_to_ref")
     inner = {n.name: n for n in ntr.body if isinstance(n, ast.FunctionDef)}
@@ -307,6 +358,29 @@ def run(repo, rep, tier):
                 ok = np2 and (e1 in ({"BEGIN"}, set()) or "END" not in e1 or e1 == {"BEGIN", "END"}) and (not e2 or "END" in e2 or e1 == e2)
                 rep.ob("C09.R3", j, f"CellRange.{fn.name}: `begin:end` order, end point without prefix", ok,
                        "" if ok else "range end-points are swapped or the second one is qualified again", key=f"C09.R3@{fn.name}:span")
+    # the first end-point of a span may drop its table prefix only for names that are unique in the whole document
+    from ..symexec import resolve_single
+    for fn in [n for n in cr.body if isinstance(n, ast.FunctionDef) and n.name in ("_format_row_span", "_format_column_span")]:
+        for c in [c for c in ast.walk(fn) if isinstance(c, ast.Call) and last_attr(c.func) == "expand_ref"]:
+            for kw in c.keywords:
+                if kw.arg != "no_prefix" or try_const(kw.value, default="x") is True or try_const(kw.value, default="x") is False:
+                    continue
+                e = resolve_single(fn, kw.value)
+                scopes = set()
+                shape_ok = True
+                for n in ast.walk(e):
+                    if isinstance(n, ast.Compare):
+                        if len(n.ops) == 1 and isinstance(n.ops[0], ast.Eq) and U(n.left).endswith(".scope"):
+                            scopes.add(U(n.comparators[0]))
+                        elif len(n.ops) == 1 and isinstance(n.ops[0], ast.In) and U(n.left).endswith(".scope") and isinstance(n.comparators[0], (ast.Tuple, ast.List, ast.Set)):
+                            scopes |= {U(x) for x in n.comparators[0].elts}
+                        else:
+                            shape_ok = False
+                ok = shape_ok and scopes == {"RefScope.DOCUMENT"}
+                rep.ob("C09.R4", c, f"CellRange.{fn.name}: the span's prefix is dropped only for document-unique labels (scopes tested: {sorted(scopes)})", ok,
+                       "" if ok else "a label that is unique only within its sheet or table is printed without its table: from another sheet the text names a different column or row",
+                       key=f"C09.R4@{fn.name}:no-prefix-scope")
+    check_col_to_name(repo, rep)
     xr = repo.func("xrefs.py", "xl_rowcol_to_cell")
     from ..symexec import Straight
     slx = Straight(xr)
@@ -410,6 +484,11 @@ VARIANTS = [
     M("cellrange-swapped-ends", "model.py", "                row_end=None if row_end == 0x7FFFFFFF else row_end,\n                col_start=None if col_begin == 0x7FFF else col_begin,", "                row_end=None if row_begin == 0x7FFFFFFF else row_begin,\n                col_start=None if col_begin == 0x7FFF else col_begin,", "C09.R1"),
     M("cell-relative-no-host", "model.py", "row = node.AST_row.row if node.AST_row.absolute else row + node.AST_row.row", "row = node.AST_row.row if node.AST_row.absolute else col + node.AST_row.row", "C09.R2"),
     M("format-cell-abs-swapped", "xrefs.py", "                        row_end,\n                        col_end,\n                        row_abs=self.row_end_is_abs,\n                        col_abs=self.col_end_is_abs,", "                        row_end,\n                        col_end,\n                        row_abs=self.col_end_is_abs,\n                        col_abs=self.row_end_is_abs,", "C09.R"),
+    M("col-name-divmod-no-borrow", "xrefs.py", "        col = int((col - 1) / 26)", "        col = col // 26", "C09.R3"),
+    T("col-name-floordiv", "xrefs.py", "        col = int((col - 1) / 26)", "        col = (col - 1) // 26"),
+    M("span-prefix-dropped-for-sheet-scope", "xrefs.py", """                    no_prefix=row_range[row_start].scope == RefScope.DOCUMENT
+                    or row_range[row_end].scope == RefScope.DOCUMENT,""", """                    no_prefix=row_range[row_start].scope in (RefScope.DOCUMENT, RefScope.SHEET)
+                    or row_range[row_end].scope == RefScope.DOCUMENT,""", "C09.R4"),
     M("abs-marker-after-quoting", "xrefs.py", """        if isinstance(ref, ScopedNameRef):
             ref_str = f"${ref.name}" if is_abs else ref.name
         else:
